@@ -206,6 +206,9 @@ class IMAPConnection:
         while True:
             try:
                 creds, final = mech.server_attempt(responses)
+            except UnicodeDecodeError as exc:
+                raise AuthenticationError(
+                    'Invalid authentication response.') from exc
             except ServerChallenge as chal:
                 chal_bytes = b64encode(chal.data)
                 cont = ResponseContinuation(chal_bytes)
